@@ -21,7 +21,7 @@
                            itself ten times, 200 000 closing brackets in a marked-content property list, 400 000 usecmap operators,
                            a /Length of 2^62 on a dictionary that does not parse, CCITT geometry of 4 GB over no data, a 100 KB
                            ToUnicode destination shown a million times, one 10 MB content stream named 100 000 times, an object stream whose
-                           20 000 header pairs all name one 100 000-element array
+                           20 000 header pairs all name one 100 000-element array, a linearization dictionary announcing 2^32 - 1 pages over no page tree
      Run(place, filler, n) a small valid file with a run of n copies of a token every reader skips (a comment, a blank, a
                            line end, a NUL or form feed, a stray delimiter, a control or Latin-1 byte tolerated in lenient modes) at one syntactic place: between an object header and its value, inside a
                            dictionary or an array, before endobj, between objects, in the cross-reference table, around
@@ -59,7 +59,7 @@ ContentTails == << "/Span#4", "/A#", "/A#4G", "(abc", "(a\\", "(\\1", "<4", "<",
 \* what may stand where an object's body should be: references that lead nowhere or in circles, nesting beyond any stack, scalars
 BodyVals == << "self", "next", "deep", "deepdict", "null", "[ ]", "<< >>", "42", "(s)", "/N", "true", "99 0 R", "[ 1 0 R 1 0 R ]", "<< /Kids 2 0 R >>" >>
 \* small files that ask for much (built by the harness): counts, sizes and nesting far beyond what the bytes can back
-BombNames == << "font_ring", "font_ring2", "pages_ring", "bdc_brackets", "bdc_nested", "form_ring", "usecmap_run", "length_recon", "ccitt_columns", "ccitt_rows", "objstm_repeat",
+BombNames == << "font_ring", "font_ring2", "pages_ring", "bdc_brackets", "bdc_nested", "form_ring", "usecmap_run", "length_recon", "ccitt_columns", "ccitt_rows", "objstm_repeat", "linearized_n",
                 "tounicode_expansion", "contents_repeat",
                 "deep_q", "wide_kids", "objstm_n", "huge_tj", "flate_content", "xref_entries" >>
 \* what an indirect reference may be turned to: the object that holds it, or the first object of a kind
